@@ -644,3 +644,63 @@ def shared_default_memos(fn):
         if reads is not None and writes is not None and uses_self:
             out.append((p, reads))
     return out
+
+
+def _self_reads(fn):
+    return {n.attr for n in ast.walk(fn) if isinstance(n, ast.Attribute) and isinstance(n.value, ast.Name) and n.value.id == "self" and isinstance(n.ctx, ast.Load)}
+
+
+def forsaken_public_attributes(fn, ref_fn, cls):
+    """[(public attribute, derived attribute)]: a method that used to read the PUBLIC attribute self.A (anyone may re-assign it) and
+    now reads instead an attribute the constructor derives from A's value once, while other methods of the class still read A: two
+    sources of truth, and re-assigning A moves only one of them"""
+    out = []
+    if ref_fn is None or cls is None or not isinstance(fn, ast.FunctionDef) or fn.name == "__init__":
+        return out
+    now, before = _self_reads(fn), _self_reads(ref_fn)
+    dropped = sorted(a for a in before - now if not a.startswith("_"))
+    added = sorted(now - before)
+    if not dropped or not added:
+        return out
+    init = cls.methods.get("__init__")
+    if init is None:
+        return out
+    stores = {}         # attribute -> value expression, constructor's top-level `self.X = <expr>`
+    for st in ast.walk(init.node):
+        if isinstance(st, (ast.Assign, ast.AnnAssign)):
+            tg = st.targets[0] if isinstance(st, ast.Assign) else st.target
+            if isinstance(tg, ast.Attribute) and isinstance(tg.value, ast.Name) and tg.value.id == "self" and st.value is not None:
+                stores[tg.attr] = st.value
+    others = set()
+    for nm, m in cls.methods.items():
+        if nm not in ("__init__", fn.name):
+            others |= _self_reads(m.node)
+    for a in dropped:
+        if a not in stores or a not in others:
+            continue
+        src = {n.id for n in ast.walk(stores[a]) if isinstance(n, ast.Name)}
+        for d in added:
+            if d in stores and any((isinstance(n, ast.Name) and n.id in src and n.id != "self") or
+                                   (isinstance(n, ast.Attribute) and isinstance(n.value, ast.Name) and n.value.id == "self" and n.attr == a) for n in ast.walk(stores[d])):
+                out.append((a, d))
+                break
+    return out
+
+
+_FLOAT_CALLS = {"math.log", "math.log2", "math.log10", "math.sqrt", "math.pow", "math.exp", "math.log1p", "float", "math.fsum", "math.hypot", "math.cbrt"}
+
+
+def float_ops(fn):
+    """{spelling: node}: operations that take an integer into floating point (53 bits of mantissa): math.log2(x), math.sqrt(x),
+    float(x), x ** 0.5, x / y.  Exact for small values, rounded for the 256-bit values this library computes with"""
+    out = {}
+    if fn is None:
+        return out
+    for n in ast.walk(fn):
+        if isinstance(n, ast.Call) and ast.unparse(n.func) in _FLOAT_CALLS and n.args and not all(isinstance(a, ast.Constant) for a in n.args):
+            out.setdefault(ast.unparse(n.func), n)
+        elif isinstance(n, ast.BinOp) and isinstance(n.op, ast.Pow) and isinstance(n.right, ast.Constant) and isinstance(n.right.value, float):
+            out.setdefault("** %r" % n.right.value, n)
+        elif isinstance(n, ast.BinOp) and isinstance(n.op, ast.Div) and not (isinstance(n.left, ast.Constant) and isinstance(n.right, ast.Constant)):
+            out.setdefault("/", n)
+    return out
